@@ -267,9 +267,11 @@ def _r1(ctx):
     if base != SPECIES_SEQ and J.path(J.unfilter(base)[0]) != "network.species":
         ctx.unrec("R1", f"{fn}:species-loop", (PHYS, it[5]), f"the sum ranges over {J.show(base)}, not recognisably the species list")
         return
-    ctx.check(base == SPECIES_SEQ and it[7] is None, "R1", f"{fn}:species-loop", (PHYS, it[5]),
+    # (a loop filter `for .. in S if C` is the body under `{% if C %}`: it is judged with the term's guards below)
+    ctx.check(base == SPECIES_SEQ, "R1", f"{fn}:species-loop", (PHYS, it[5]),
               "the sum ranges over every entry of network.species, each paired with its own abundance symbol",
               expected="for spec in network.species (unfiltered)", found=J.show(itx) + (f" if {J.show(it[7])}" if it[7] else ""))
+    loop_filter = [("if+", J.expr_at(tree, it, it[7], env2))] if it[7] is not None else []
     # the term: the one output of the loop body that mentions the species (other outputs are layout)
     terms = []
     for x, env_, guards in J.scan(tree, it[3], env2):
@@ -285,16 +287,23 @@ def _r1(ctx):
         return
     x, e, guards = terms[0]
     natom = ("call", ("attr", ("attr", svar, "element_count"), "get"), (FIRST_KEY(evar),), ())
+    table = ("attr", svar, "element_count")
+    # the count of this element in this species, however it is looked up: T.get(e) | T.get(e, 0) | T[e]
+    counts = (natom, ("call", ("attr", table, "get"), (FIRST_KEY(evar), ("const", 0)), ()), ("item", table, FIRST_KEY(evar)))
+    # ... and "the species contains the element", however it is asked: the count itself | count > 0 | count != 0 | e in T
+    present = set(counts) | {("cmp", c, ((op, ("const", 0)),)) for c in counts for op in ("gt", "ne")} | {("cmp", FIRST_KEY(evar), (("in", table),))}
     got = J.str_pieces(e)
     ab = [("lit", "*y[IDX_"), ("val", ("attr", svar, "alias")), ("lit", "] + ")]
-    ok = len(got) == 4 and got[0][0] in ("fmt", "val") and got[0][-1] == natom and got[1:] == ab \
+    ok = len(got) == 4 and got[0][0] in ("fmt", "val") and got[0][-1] in counts and got[1:] == ab \
         and (got[0][0] == "val" or re.fullmatch(r"\.\d+[fe]|[eg]", got[0][1]) is not None)
     ctx.check(ok, "R1", f"{fn}:term", (PHYS, x[2]),
               "each term is <count of this element in this species> * <this species' abundance> + ",
               expected=f"format({J.show(natom)}) ~ '*y[IDX_' ~ {J.show(svar)}.alias ~ '] + '",
               found=" ~ ".join(repr(p[1]) if p[0] == "lit" else J.show(p[-1]) for p in got))
-    tests = [(g[0], J.subst(J.inline_macros(tree, PHYS, g[1]), g[2])) for g in guards]
-    gok = len(tests) == 1 and tests[0] == ("if+", natom)
+    tests = loop_filter + [(g[0], J.subst(J.inline_macros(tree, PHYS, g[1]), g[2])) for g in guards]
+    def conj(t):
+        return conj(t[1]) + conj(t[2]) if t[0] == "and" else [t]          # `if a and b` is `if a` + `if b`
+    gok = bool(tests) and all(k == "if+" and all(c in present for c in conj(t)) for k, t in tests)
     ctx.check(gok, "R1", f"{fn}:term-guard", (PHYS, x[2]), "a term is skipped only when the count is zero/absent",
               found="; ".join(("" if k == "if+" else "not ") + J.show(t) for k, t in tests))
 
@@ -308,7 +317,12 @@ ALLOWED = {
 
 def _r2(ctx):
     pkg = package(ctx.tree)
-    fn = pkg.method("Species", "__eq__")
+
+    def method(name):
+        """the method as the rules read it: private helpers it was split into put back, class-level constants as their literals"""
+        pkg.method("Species", name)
+        return pkg.constants_folded("Species", pkg.expanded("Species", name))
+    fn = method("__eq__")
     ctx.saw(SPECIES, "Species.__eq__")
     disj, probs = eq_disjuncts(fn)
     for p in probs:
@@ -340,7 +354,7 @@ def _r2(ctx):
                     expected="name, or (is_surface, basename, charge), or (is_grain, grain_group, charge), or both electrons",
                     found=f"eq on {sorted(eqs)}, both {sorted(both)}")
     # R3 electrons: one hash value
-    hf = pkg.method("Species", "__hash__")
+    hf = method("__hash__")
     ctx.saw(SPECIES, "Species.__hash__")
     paths = hash_paths(hf, resolve=lambda name: pkg.method("Species", name))
     el = [p for p in paths if p[0] == "self.is_electron"]
@@ -349,7 +363,7 @@ def _r2(ctx):
               found="; ".join(f"{c}: {e}" for c, _, e in paths)[:160])
     has_e = any(frozenset(d) == frozenset({("both", "is_electron")}) for d in disj)
     ctx.check(has_e, "R3", "Species.__eq__:electron", (SPECIES, fn.lineno), "all electron spellings compare equal")
-    ie = pkg.method("Species", "is_electron")
+    ie = method("is_electron")
     ctx.saw(SPECIES, "Species.is_electron")
     # constant folding of the predicate for the four spellings (no execution: a whitelisted expression evaluator over the AST)
     res = {nm: _fold_name_predicate(ie, nm) for nm in ("e", "E", "e-", "E-")}
@@ -454,6 +468,13 @@ MUTANTS += [
     {"name": "element-count-get-of-other-key", "file": SPECIES, "old": "        if element in self.element_count.keys():\n            self.element_count[element] += count\n        else:\n            self.element_count[element] = count\n", "new": "        self.element_count[element] = self.element_count.get(self.name, 0) + count\n", "rules": ["R6"]},
     {"name": "abund-of-other-list", "file": PHYS, "old": "zip(network.species, specabund)", "new": "zip(network.species | sort(attribute='name'), specabund)", "rules": ["R1"]},
     {"name": "term-count-of-element-species", "file": PHYS, "old": '{{ "{:.1f}".format(natom) ~ "*" ~ ab ~ " + "}}', "new": '{{ "{:.1f}*{} + ".format(elem.element_count.get(elemname), ab) }}', "rules": ["R1"]},
+    {"name": "loop-filter-drops-ice", "file": PHYS, "old": "zip(network.species, specabund) -%}", "new": "zip(network.species, specabund) if not spec.is_surface -%}", "rules": ["R1"]},
+    {"name": "electron-names-constant-misses-E", "edits": [
+        {"file": SPECIES, "old": "    _replacement = {}\n", "new": "    _replacement = {}\n    _electron_names = (\"E-\",)\n", "count": 1},
+        {"file": SPECIES, "old": 'return self.name.upper() in ["E", "E-"]', "new": "return self.name.upper() in self._electron_names"}], "rules": ["R3"]},
+    {"name": "eq-grain-helper-without-charge", "edits": [
+        {"file": SPECIES, "old": "                or (\n                    self.is_grain\n                    and o.is_grain\n                    and self.grain_group == o.grain_group\n                    and self.charge == o.charge\n                )\n", "new": "                or self._same_grain(o)\n"},
+        {"file": SPECIES, "old": "    def __hash__(self) -> int:\n", "new": "    def _same_grain(self, o):\n        return self.is_grain and o.is_grain and self.grain_group == o.grain_group\n\n    def __hash__(self) -> int:\n"}], "rules": ["R2"]},
     {"name": "macro-header-last-key", "file": MACROS, "old": "#define IDX_ELEM_{{ spec.element_count.keys() | first }} {{ loop.index0 }}", "new": "{% set sym = spec.element_count | last %}\n#define IDX_ELEM_{{ sym }} {{ loop.index0 }}", "rules": ["R1"]},
     {"name": "element-count-dict-update", "file": SPECIES, "old": "        if element in self.element_count.keys():\n            self.element_count[element] += count\n        else:\n            self.element_count[element] = count\n", "new": "        self.element_count.update({element: count})\n", "rules": ["R6"]},
     {"name": "element-count-overwrite", "file": SPECIES, "old": "        if element in self.element_count.keys():\n            self.element_count[element] += count\n        else:\n            self.element_count[element] = count\n", "new": "        self.element_count[element] = count\n", "rules": ["R6"]},
@@ -475,5 +496,18 @@ BENIGN = [
     {"name": "term-one-format-string", "file": PHYS, "old": '{{ "{:.1f}".format(natom) ~ "*" ~ ab ~ " + "}}', "new": '{{ "{:.1f}*{} + ".format(natom, ab) }}'},
     {"name": "guard-uses-set-name", "file": PHYS, "old": "if (elemidx == IDX_ELEM_{{ elem.element_count.keys() | first }}) {", "new": "if (elemidx == IDX_ELEM_{{ elemname }}) {"},
     {"name": "macro-header-set-name", "file": MACROS, "old": "#define IDX_ELEM_{{ spec.element_count.keys() | first }} {{ loop.index0 }}", "new": "{% set sym = spec.element_count | first %}\n#define IDX_ELEM_{{ sym }} {{ loop.index0 }}"},
+    {"name": "term-guard-as-loop-filter", "edits": [
+        {"file": PHYS, "old": "zip(network.species, specabund) -%}", "new": "zip(network.species, specabund) if spec.element_count.get(elemname) -%}"},
+        {"file": PHYS, "old": "               {% if natom -%}\n", "new": ""},
+        {"file": PHYS, "old": "               {%- endif %}\n", "new": ""}]},
+    {"name": "electron-names-class-constant", "edits": [
+        {"file": SPECIES, "old": "    _replacement = {}\n", "new": "    _replacement = {}\n    _electron_names = (\"E\", \"E-\")\n", "count": 1},
+        {"file": SPECIES, "old": 'return self.name.upper() in ["E", "E-"]', "new": "return self.name.upper() in self._electron_names"}]},
+    {"name": "eq-grain-helper-predicate", "edits": [
+        {"file": SPECIES, "old": "                or (\n                    self.is_grain\n                    and o.is_grain\n                    and self.grain_group == o.grain_group\n                    and self.charge == o.charge\n                )\n", "new": "                or self._same_grain(o)\n"},
+        {"file": SPECIES, "old": "    def __hash__(self) -> int:\n", "new": "    def _same_grain(self, o):\n        return self.is_grain and o.is_grain and self.grain_group == o.grain_group and self.charge == o.charge\n\n    def __hash__(self) -> int:\n"}]},
+    {"name": "term-guard-membership", "edits": [
+        {"file": PHYS, "old": "{% set natom = spec.element_count.get(elemname) -%}", "new": "{% set natom = spec.element_count.get(elemname, 0) -%}"},
+        {"file": PHYS, "old": "               {% if natom -%}\n", "new": "               {% if elemname in spec.element_count and natom > 0 -%}\n"}]},
     {"name": "eq-disjuncts-reordered", "file": SPECIES, "old": "                (self.is_electron and o.is_electron)\n                or (", "new": "                self.name == o.name\n                or (self.is_electron and o.is_electron)\n                or ("},
 ]
